@@ -1,0 +1,52 @@
+//go:build verif
+
+package node
+
+import (
+	"github.com/holiman/uint256"
+	"github.com/rigochain/rigo-go/ctrlers/account"
+	"github.com/rigochain/rigo-go/ctrlers/gov"
+	"github.com/rigochain/rigo-go/ctrlers/stake"
+	rctypes "github.com/rigochain/rigo-go/ctrlers/types"
+	"github.com/rigochain/rigo-go/ctrlers/vm/evm"
+)
+
+// VerifView gives the verification harness read access to the controllers
+// and to the running block context.
+type VerifView struct {
+	Acct   *account.AcctCtrler
+	Stake  *stake.StakeCtrler
+	Gov    *gov.GovCtrler
+	EVM    *evm.EVMCtrler
+	MetaDB *rctypes.MetaDB
+
+	InBlock    bool
+	Height     int64 // height being executed (InBlock) or last committed height
+	FeeSum     *uint256.Int
+	TxsCnt     int
+	LastHeight int64
+	ChainID    string
+}
+
+func (ctrler *RigoApp) VerifView() VerifView {
+	ret := VerifView{
+		Acct:    ctrler.acctCtrler,
+		Stake:   ctrler.stakeCtrler,
+		Gov:     ctrler.govCtrler,
+		EVM:     ctrler.vmCtrler,
+		MetaDB:  ctrler.metaDB,
+		FeeSum:  uint256.NewInt(0),
+		ChainID: ctrler.rootConfig.ChainID,
+	}
+	if ctrler.lastBlockCtx != nil {
+		ret.LastHeight = ctrler.lastBlockCtx.Height()
+		ret.Height = ret.LastHeight
+	}
+	if ctrler.nextBlockCtx != nil {
+		ret.InBlock = true
+		ret.Height = ctrler.nextBlockCtx.Height()
+		ret.FeeSum = ctrler.nextBlockCtx.SumFee()
+		ret.TxsCnt = ctrler.nextBlockCtx.TxsCnt()
+	}
+	return ret
+}
